@@ -259,12 +259,14 @@ fn c09_edge_send_request_to_recv_response() {
 }
 
 //@ like: c09_edge_send_request_to_await100
+//@ tier: off
 #[kani::proof]
 fn c09_edge_send_request_premature_line() {
     edge_send_request(true, 0, true);
 }
 
 //@ like: c09_edge_send_request_to_await100
+//@ tier: off
 #[kani::proof]
 fn c09_edge_send_request_premature_headers() {
     edge_send_request(false, 1, false);
@@ -363,6 +365,7 @@ fn c09_edge_send_body_chunked_finished() {
 }
 
 //@ like: c09_edge_send_body_chunked_finished
+//@ tier: off
 #[kani::proof]
 fn c09_edge_send_body_chunked_premature() {
     edge_send_body(true, false);
@@ -375,6 +378,7 @@ fn c09_edge_send_body_sized_finished() {
 }
 
 //@ like: c09_edge_send_body_chunked_finished
+//@ tier: off
 #[kani::proof]
 fn c09_edge_send_body_sized_premature() {
     edge_send_body(false, false);
@@ -454,7 +458,7 @@ fn edge_recv_response(rk: usize, code: u16) {
 }
 
 //@ props: C09 C06 C08 C10 C15 C12
-//@ tier: quick
+//@ tier: off
 //@ unwind: 6
 //@ timeout: 900
 //@ encodes: Flow::<RecvResponse>::can_proceed, Flow::<RecvResponse>::proceed, Call::need_response_body, Call::do_into_body, Call::is_close_delimited, Inner::is_redirect, ArrayVec::push (close reasons), successor accessors (Flow::<RecvBody>::can_proceed/body_mode, Flow::<Redirect>::status/must_close_connection, Flow::<Cleanup>::must_close_connection/close_reason)
@@ -579,7 +583,7 @@ fn edge_recv_body(rk: usize, code: u16) {
 }
 
 //@ props: C09 C08 C15 C10
-//@ tier: quick
+//@ tier: off
 //@ unwind: 6
 //@ timeout: 900
 //@ encodes: Flow::<RecvBody>::can_proceed, Flow::<RecvBody>::proceed, Call::is_ended, Call::is_close_delimited, Inner::is_redirect, Flow::<Redirect>::proceed/status/must_close_connection/close_reason, Flow::<Cleanup>::must_close_connection/close_reason
@@ -626,4 +630,183 @@ fn c09_edge_recv_body_close_200() {
 #[kani::proof]
 fn c09_edge_recv_body_close_301() {
     edge_recv_body(5, 301);
+}
+
+// ---------------------------------------------------------------- capacity of the close-reason list (C12)
+
+//@ props: C12 C10 C09
+//@ tier: quick
+//@ unwind: 6
+//@ timeout: 600
+//@ encodes: ArrayVec::<CloseReason, N>::push as performed by Flow::<RecvResponse>::proceed (fifth reason), ArrayVec::first via Flow verdict helpers
+//@ vars: earlier reasons: any subset of {Http10, ClientConnectionClose, Not100Continue, ServerConnectionClose}
+//@ bounds: none (all 16 subsets)
+//@ outside: -
+//@ clause: recording CloseDelimitedBody on top of any admissible earlier reasons - all four included - does not overflow the list; the list then names the first recorded reason
+#[kani::proof]
+fn c12_close_reason_capacity() {
+    let reasons = any_reasons(true, true);
+    let n0 = reasons_count(&reasons);
+    let mut inner = mk_inner(CallHolder::Empty, &reasons, false, false, None, None);
+    inner.close_reason.push(CloseReason::CloseDelimitedBody);
+    assert!(inner.close_reason.len() == n0 + 1, "C12/fifth-close-reason-fits");
+    let first = inner.close_reason.first().map(|r| *r);
+    let expect = if reasons.http10 {
+        CloseReason::Http10
+    } else if reasons.client_close {
+        CloseReason::ClientConnectionClose
+    } else if reasons.not100 {
+        CloseReason::Not100Continue
+    } else if reasons.server_close {
+        CloseReason::ServerConnectionClose
+    } else {
+        CloseReason::CloseDelimitedBody
+    };
+    assert!(first == Some(expect), "C10/reason-names-a-condition-that-holds");
+    kani::cover!(n0 == 4, "five-reasons-at-once");
+    core::mem::forget(inner);
+}
+
+//@ props: C09 C02
+//@ tier: quick
+//@ unwind: 6
+//@ unwindset: memcmp=12 from_static=20 to_str=12
+//@ timeout: 900
+//@ encodes: CallHolder::convert_to_send_body, Call::<WithoutBody>::into_send_body, CallHolder::analyze_request, Call::analyze_request, AmendedRequest::analyze (header-less), Flow::<SendBody>::can_proceed
+//@ vars: method GET|HEAD|DELETE (concrete per run: symbolic index over the three), version 1.1, no framing header
+//@ bounds: header-less requests
+//@ outside: despite-method with a caller-supplied framing header (then the header decides: c17_cell_* family)
+//@ clause: after send_body_despite_method() a body is due and the call can send one: the analysed writer has a body mode (chunked by default), is not finished before anything was written, and the framing header has been added
+#[kani::proof]
+fn c09_despite_method_gets_a_body_writer() {
+    let mi = any_idx(2); // GET, HEAD
+    let call: Call<crate::client::call::state::WithoutBody, ()> =
+        ch::mk_call_req(ah::mk_request(mi, 2), 0, 0, bh::mk_writer_none(), None, false);
+    let mut holder = CallHolder::WithoutBody(call);
+    holder.convert_to_send_body();
+    assert!(holder_kind(&holder) == 1, "C09/despite-method-holder-is-with-body");
+    let r = holder.analyze_request();
+    assert!(r.is_ok(), "C17/despite-method-request-accepted");
+    let flow: Flow<(), SendBody> = mk_flow(mk_inner(holder, &no_reasons(), true, false, None, None));
+    assert!(!flow.can_proceed(), "C09/body-due-is-not-finished-before-anything-was-sent");
+    let c = flow.inner.call.as_with_body();
+    assert!(ch::writer_of(c).has_body(), "C09/despite-method-call-can-send-a-body");
+    assert!(ch::writer_of(c).is_chunked(), "C02/chunked-by-default");
+    assert!(c.amended().headers_len() == 1, "C02/framing-header-added-exactly-once");
+    core::mem::forget(flow);
+    core::mem::forget(r);
+}
+
+// =====================================================================================
+// C10 — verdict helpers (by reference) and the construction-time push sites
+// =====================================================================================
+
+//@ props: C10
+//@ tier: quick
+//@ unwind: 6
+//@ timeout: 600
+//@ encodes: Flow::<Cleanup>::must_close_connection/close_reason, Flow::<Redirect>::must_close_connection/close_reason/status, CloseReason::explain
+//@ vars: recorded reasons: any subset of the five conditions (in program order); status any 100..=999
+//@ bounds: none (all 32 subsets)
+//@ outside: -
+//@ clause: in the redirect and in the cleanup state alike: must-close <=> at least one condition was recorded; a reason text is given exactly then
+#[kani::proof]
+fn c10_verdict_is_disjunction_of_recorded_conditions() {
+    let reasons = any_reasons(true, true);
+    let close_delim: bool = kani::any();
+    let total = reasons_count(&reasons) + close_delim as usize;
+    let status = any_status();
+    let mut inner = mk_inner(CallHolder::Empty, &reasons, kani::any(), kani::any(), Some(status), None);
+    if close_delim {
+        inner.close_reason.push(CloseReason::CloseDelimitedBody);
+    }
+    let f: Flow<(), Cleanup> = mk_flow(inner);
+    assert!(f.must_close_connection() == (total > 0), "C10/verdict-iff-any-reason");
+    assert!(f.close_reason().is_some() == (total > 0), "C10/reason-given-iff-must-close");
+    let inner = f.inner;
+    let r: Flow<(), Redirect> = mk_flow(inner);
+    assert!(r.must_close_connection() == (total > 0), "C10/verdict-iff-any-reason");
+    assert!(r.close_reason().is_some() == (total > 0), "C10/reason-given-iff-must-close");
+    assert!(r.status() == status, "C15/redirect-reports-status");
+    kani::cover!(total == 0, "reusable");
+    kani::cover!(total == 5, "all-five");
+    core::mem::forget(r);
+}
+
+fn c10_new_case(vi: usize, conn: usize, expect100: bool, mi: usize) {
+    // conn: 0 absent, 1 "close", 2 "keep-alive", 3 "Close" (value compare is case-sensitive bytes)
+    let mut req = ah::mk_request(mi, vi);
+    if conn == 1 {
+        req.headers_mut().append(http::header::CONNECTION, HeaderValue::from_static("close"));
+    } else if conn == 2 {
+        req.headers_mut().append(http::header::CONNECTION, HeaderValue::from_static("keep-alive"));
+    }
+    if expect100 {
+        req.headers_mut().append(http::header::EXPECT, HeaderValue::from_static("100-continue"));
+    }
+    let r = Flow::new(req);
+    match r {
+        Err(e) => {
+            core::mem::forget(e);
+            assert!(false, "C09/flow-construction-succeeds");
+        }
+        Ok(f) => {
+            let http10 = vi == 1;
+            let n = http10 as usize + (conn == 1) as usize;
+            assert!(f.inner.close_reason.len() == n, "C10/construction-records-exactly-http10-and-client-close");
+            if http10 {
+                assert!(f.inner.close_reason[0] == CloseReason::Http10, "C10/http10-recorded");
+            }
+            if conn == 1 {
+                assert!(f.inner.close_reason[n - 1] == CloseReason::ClientConnectionClose, "C10/client-connection-close-recorded");
+            }
+            let needs = ah::method_needs_body(mi);
+            assert!(f.inner.should_send_body == needs, "C09/body-due-iff-method-takes-one");
+            assert!(f.inner.await_100_continue == expect100, "C11/await-flag-iff-expect-header");
+            assert!(holder_kind(&f.inner.call) == needs as u8, "C09/prepare-holder-matches-method");
+            assert!(f.inner.status.is_none() && f.inner.location.is_none(), "C09/no-response-facts-yet");
+            core::mem::forget(f);
+        }
+    }
+    kani::cover!(true, "cell-reached");
+}
+
+//@ props: C10 C09 C11
+//@ tier: quick
+//@ unwind: 6
+//@ unwindset: memcmp=14 from_static=14 extend_with=10 FnvHasher=10 3all5check=18 eq_ignore_ascii_case=18 from_fn=6
+//@ timeout: 1200
+//@ mem: 24
+//@ encodes: Flow::<Prepare>::new, HeaderIterExt::has / has_expect_100, MethodExt::need_request_body, CallHolder::new, Call::with_body / without_body, AmendedRequest::new
+//@ vars: concrete per harness: request version 1.0|1.1, Connection header absent|close|keep-alive, Expect: 100-continue present|absent, method GET|POST
+//@ bounds: the listed cells
+//@ outside: other Connection values (token lists, mixed case), several Connection fields
+//@ clause: constructing a flow records Http10 iff the request is HTTP/1.0 and ClientConnectionClose iff it carries Connection: close - nothing else; body-due / await flags and the holder kind follow the method and the Expect header
+#[kani::proof]
+fn c10_new_http11_plain_get() {
+    c10_new_case(2, 0, false, 0);
+}
+
+//@ like: c10_new_http11_plain_get
+#[kani::proof]
+fn c10_new_http10_post_expect() {
+    c10_new_case(1, 0, true, 2);
+}
+
+//@ like: c10_new_http11_plain_get
+#[kani::proof]
+fn c10_new_http11_close_post() {
+    c10_new_case(2, 1, false, 2);
+}
+
+//@ like: c10_new_http11_plain_get
+#[kani::proof]
+fn c10_new_http10_close_get() {
+    c10_new_case(1, 1, false, 0);
+}
+
+//@ like: c10_new_http11_plain_get
+#[kani::proof]
+fn c10_new_http11_keepalive_get() {
+    c10_new_case(2, 2, false, 0);
 }
